@@ -204,6 +204,29 @@ def run_tlc(module, cfg, env=None, workers=1, timeout=1800, extra=(), scratch=No
     return {"stdout": out, "states": states, "distinct": distinct, "rc": rc, "wall": time.time() - t0}
 
 
+def run_tlapm(module, timeout=900, threads=8):
+    """Check the TLAPS proofs of spec/proofs/<module>.tla (which EXTENDS modules of spec/).  Returns dict(ok, obligations,
+    stdout, wall).  Runs in a scratch copy because tlapm writes a .tlacache next to the module."""
+    sc = tempfile.mkdtemp(prefix="vtlaps_", dir=os.environ.get("VERIF_SCRATCH"))
+    t0 = time.time()
+    try:
+        for f in os.listdir(SPEC):
+            if f.endswith(".tla"):
+                shutil.copy(os.path.join(SPEC, f), sc)
+        shutil.copy(os.path.join(SPEC, "proofs", module + ".tla"), sc)
+        try:
+            p = subprocess.run(["tlapm", "--threads", str(threads), "--cleanfp", module + ".tla"], cwd=sc, stdout=subprocess.PIPE,
+                               stderr=subprocess.STDOUT, timeout=timeout, text=True)
+            out, rc = p.stdout, p.returncode
+        except subprocess.TimeoutExpired as ex:
+            out, rc = "timeout", -9
+    finally:
+        shutil.rmtree(sc, ignore_errors=True)
+    m = re.search(r"All (\d+) obligations? proved", out)
+    return {"ok": rc == 0 and m is not None, "obligations": int(m.group(1)) if m else 0, "stdout": out, "rc": rc,
+            "wall": time.time() - t0}
+
+
 def tlc_ok(res):
     """TLC finished model checking normally (no parse/eval error)."""
     o = res["stdout"]
